@@ -505,7 +505,7 @@ func fragDigest(s string) string {
 
 func genDfrag(emit func(string), tier string, rng *Rng) {
 	thorough := tier == "thorough"
-	n, maxLen := 260, 6000
+	n, maxLen := 400, 6000
 	if thorough {
 		n, maxLen = 1000, 30000
 	}
